@@ -700,6 +700,13 @@ def zoo(tier='quick'):
         c['CA.HH'].AddVariable('EXOGENOUS_LEVEL', 'a level the user calls exogenous', '2.0')
         c['CA.HH'].AddVariable('TARGET', 'uses it', 'EXOGENOUS_LEVEL + 0.5*AfterTax')
         c['CA.GOV'].AddVariable('NONEXOGENOUS', 'another one', '3.0 + T')
+        # variables named like words float() accepts (INF for inflation ...), used alone as a right-hand side
+        c['CA.HH'].AddVariable('INF', 'inflation', '0.02')
+        c['CA.HH'].AddVariable('EXPINF', 'expected inflation', 'INF')
+        c['CA.GOV'].AddVariable('Infinity', 'a horizon', '12.0')
+        c['CA.GOV'].AddVariable('HORIZON', 'uses it', ' Infinity ')
+        c['CA.GOV'].AddVariable('NAN', 'not available', '-1.0')
+        c['CA.GOV'].AddVariable('MISSING', 'uses it with a sign', '-NAN')
         # ... and model-level equations (their names are not qualified by a sector code)
         c.model.AddGlobalEquation('EXOGENOUS_RATE', 'a rate the user calls exogenous', '0.05')
         c.model.AddGlobalEquation('DOUBLE_RATE', 'uses it first thing', 'EXOGENOUS_RATE*2')
@@ -743,21 +750,28 @@ def zoo(tier='quick'):
     p.rename = {'LAB': 'WORK', 'GOOD': 'WIDGET', 'BUS': 'MAKER'}
     Z.append(p)
     # two profit-making firms (two goods) and one capitalist sector receiving the dividends of both
-    for nm, caps_first in (('two_firms_one_capitalist', True), ('two_firms_capitalist_last', False), ('two_firms_subclass_capitalist_last', False)):
+    for nm, caps_first in (('two_firms_one_capitalist', True), ('two_firms_capitalist_last', False), ('two_firms_subclass_capitalist_last', False),
+                           ('two_firms_prefix_market_codes', True)):
         p = single(nm, caps=caps_first, firm='fm1')
+        # the second market's code: SERV, or - prefix-related codes - the first market is GOODS (declared and processed first), the second GOOD
+        code2 = 'SERV'
+        if 'prefix' in nm:
+            code2 = 'GOOD'
+            p.rename = {'GOOD': 'GOODS', 'HH': 'HH2'}
+            p.decl('CA.HH0', lambda c: Sector(c['CA'], 'HH'), group='CA')       # a sector whose code is a prefix of another sector's code (HH / HH2)
         # ... the second firm an instance of a user's subclass of FixedMarginBusiness (how the library is meant to be extended)
         firm2 = ServiceBusiness if 'subclass' in nm else sd.FixedMarginBusiness
         if not caps_first:
             p.decl('CA.CAP', lambda c: sd.Capitalists(c['CA'], c.nm('CAP'), alpha_income=0.5, alpha_fin=0.2, consumption_good_name=c.nm('GOOD')), group='CA')
             p.params += [('CA.CAP', 'AlphaIncome'), ('CA.CAP', 'AlphaFin')]
-        p.decl('CA.BUS2', lambda c, firm2=firm2: firm2(c['CA'], 'BUS2', profit_margin=0.3, labour_input_name=c.nm('LAB'), output_name='SERV'), group='CA')
-        p.decl('CA.SERV', lambda c: Market(c['CA'], 'SERV'), group='CA', kind='market')
+        p.decl('CA.BUS2', lambda c, firm2=firm2, code2=code2: firm2(c['CA'], 'BUS2', profit_margin=0.3, labour_input_name=c.nm('LAB'), output_name=code2), group='CA')
+        p.decl('CA.SERV', lambda c, code2=code2: Market(c['CA'], code2), group='CA', kind='market')
 
-        def serv_post(c):
-            c.model.AddCashFlowIncomeExclusion(c['CA.HH'], 'DEM_SERV')
-            c['CA.HH'].AddVariable('DEM_SERV', 'services bought', '0.1*AfterTax')
-            c['CA.GOV'].AddVariable('DEM_SERV', 'services bought by the government', '5.0')
-            c['CA.GOV'].SetExogenous('DEM_SERV', exo(base=5.0))
+        def serv_post(c, code2=code2):
+            c.model.AddCashFlowIncomeExclusion(c['CA.HH'], 'DEM_' + code2)
+            c['CA.HH'].AddVariable('DEM_' + code2, 'services bought', '0.1*AfterTax')
+            c['CA.GOV'].AddVariable('DEM_' + code2, 'services bought by the government', '5.0')
+            c['CA.GOV'].SetExogenous('DEM_' + code2, exo(base=5.0))
         p.post(serv_post)
         p.features.add('two-dividend-payers')
         Z.append(p)
